@@ -167,6 +167,16 @@ def adaptive(
     )
 
 
+def _exponential_cap(base_s: float, max_s: float, factor: float, attempt: int) -> float:
+    """min(max_s, base_s * factor**attempt) without overflowing for large attempt numbers."""
+    try:
+        return min(max_s, base_s * (factor**attempt))
+    except OverflowError:
+        # factor**attempt exceeds the float range: the cap saturates at max_s
+        # (a zero base keeps the cap at zero).
+        return max_s if base_s > 0 else 0.0
+
+
 def decorrelated_jitter(base_s: float = 0.25, max_s: float = 30.0) -> StrategyFn:
     """
     Decorrelated jitter backoff.
@@ -192,7 +202,7 @@ def equal_jitter(base_s: float = 0.25, max_s: float = 30.0) -> StrategyFn:
     """
 
     def f(attempt: int, klass: ErrorClass, prev_sleep: float | None) -> float:
-        cap = min(max_s, base_s * (2.0**attempt))
+        cap = _exponential_cap(base_s, max_s, 2.0, attempt)
         return cap / 2.0 + random.uniform(0.0, cap / 2.0)
 
     return f
@@ -207,7 +217,7 @@ def token_backoff(base_s: float = 0.25, max_s: float = 20.0) -> StrategyFn:
     """
 
     def f(attempt: int, klass: ErrorClass, prev_sleep: float | None) -> float:
-        cap = min(max_s, base_s * (1.5**attempt))
+        cap = _exponential_cap(base_s, max_s, 1.5, attempt)
         return random.uniform(cap / 2.0, cap)
 
     return f
